@@ -194,7 +194,9 @@ def run(ctx):
                     q = oq.quantize_weight(x, qtypes[qtn], axis)
                     ctx.count("calls:quantize_weight")
                     inn, _ = fp.inner(q)
-                    check_sym_scale(ctx, x, inn["_scale"], q.axis, qmax_q, "quantize_weight", qtn, desc)
+                    # judged for the axis that was *requested* (a kept axis of size 1 degrades to per-tensor, which is the
+                    # same thing); what the result declares is C06's business
+                    check_sym_scale(ctx, x, inn["_scale"], axis, qmax_q, "quantize_weight", qtn, desc)
                 else:
                     q = None
         except Exception as e:
